@@ -27,7 +27,6 @@ import (
 	"encoding/hex"
 	"fmt"
 	"hash"
-	"regexp"
 	"strings"
 
 	"github.com/9elements/converged-security-suite/v2/pkg/bootflow/subsystems/trustchains/tpm"
@@ -160,6 +159,8 @@ type refTPM struct {
 	log     []cmdT
 	ev      []cmdT
 	table   []string // Gallina literals ((alg, message), digest) of every hash computed
+	// why the last command given to apply could not be executed (0: it was executed); see failKind
+	lastKind int
 }
 
 func newHash(a uint16) hash.Hash {
@@ -188,11 +189,12 @@ func (r *refTPM) exec(c cmdT) bool {
 
 // apply is the effect of one command on the reference TPM (the command log is the caller's business).
 func (r *refTPM) apply(c cmdT) bool {
+	r.lastKind = r.failKind(c)
+	if r.lastKind != 0 {
+		return false
+	}
 	switch c.kind {
 	case kStartup:
-		if r.started {
-			return false
-		}
 		for _, a := range []uint16{4, 0xB} {
 			n := newHash(a).Size()
 			pcr0, pcr1 := make([]byte, n), make([]byte, n)
@@ -202,16 +204,8 @@ func (r *refTPM) apply(c cmdT) bool {
 		r.started = true
 		return true
 	case kExtend:
-		old, ok := r.banks[[2]int{int(c.p), int(c.a)}]
-		if !ok {
-			return false
-		}
+		old := r.banks[[2]int{int(c.p), int(c.a)}]
 		h := newHash(c.a)
-		if h == nil || len(old) != h.Size() {
-			// only after PCRValues.Set (API-level cases): what sits in the bank is not a PCR value
-			// of this algorithm; a reference TPM has nothing to extend
-			return false
-		}
 		msg := append(append([]byte{}, old...), c.d...)
 		h.Write(msg)
 		nv := h.Sum(nil)
@@ -223,6 +217,68 @@ func (r *refTPM) apply(c cmdT) bool {
 		return true
 	}
 	panic("bad kind")
+}
+
+// The preconditions of the commands, in the words of the property ("TPM not started, unknown PCR
+// index or hash algorithm"), numbered like the ERR_* codes of Model/TPM.v so that Coq can compare
+// the reference TPM's reason with the model's.  Computed from the state of the reference TPM and
+// the arguments only -- never from anything the implementation returned.
+const (
+	whyExecuted       = 0
+	whyAlreadyStarted = 1 // startup on a started TPM
+	whyNoHasher       = 2 // the algorithm identifier is not a hash algorithm (go-tpm has no hash for it)
+	whyNoPCR          = 3 // TPM not started, or no PCR with that index
+	whyNoBank         = 4 // the PCR exists, but has no bank for that algorithm
+	whyValueLength    = 5 // only after PCRValues.Set: what sits in the bank is not a value of that algorithm
+)
+
+var whyNames = [...]string{"executed", "already-started", "not-a-hash-algorithm", "no-such-pcr", "no-such-bank", "bank-value-length"}
+
+// hasHasher: is the identifier a hash algorithm at all?  Asked of go-tpm (the third-party table the
+// implementation uses as well), not of the code under test.
+func hasHasher(a uint16) bool {
+	_, err := tpm2.Algorithm(a).Hash()
+	return err == nil
+}
+
+func (r *refTPM) hasPCR(p int) bool {
+	for k := range r.banks {
+		if k[0] == p {
+			return true
+		}
+	}
+	return false
+}
+
+// bankKind: why bank (p, a) cannot be addressed (0: it can).
+func (r *refTPM) bankKind(p, a int) int {
+	if !r.hasPCR(p) {
+		return whyNoPCR
+	}
+	if _, ok := r.banks[[2]int{p, a}]; !ok {
+		return whyNoBank
+	}
+	return whyExecuted
+}
+
+func (r *refTPM) failKind(c cmdT) int {
+	switch c.kind {
+	case kStartup:
+		if r.started {
+			return whyAlreadyStarted
+		}
+	case kExtend:
+		if !hasHasher(c.a) {
+			return whyNoHasher
+		}
+		if k := r.bankKind(int(c.p), int(c.a)); k != 0 {
+			return k
+		}
+		if h := newHash(c.a); h == nil || len(r.banks[[2]int{int(c.p), int(c.a)}]) != h.Size() {
+			return whyValueLength
+		}
+	}
+	return whyExecuted
 }
 
 // ---------------------------------------------------------------- implementation side
@@ -261,37 +317,16 @@ func runCmd(t *tpm.TPM, c cmdT) (class int, msg string) {
 	return 0, ""
 }
 
-var rePCRBank = regexp.MustCompile(`PCR \d+:`)
-
-// errKind classifies an error message by the statement that produces it; the
-// numbers are the ERR_* codes of Model/TPM.v (9: none of them).
-func errKind(msg string) int {
-	switch {
-	case strings.Contains(msg, "already initialized"):
-		return 1
-	case strings.Contains(msg, "invalid hash algo"):
-		return 2
-	case strings.Contains(msg, "internal error"):
-		return 5
-	case strings.Contains(msg, "is not initialized"):
-		if rePCRBank.MatchString(msg) {
-			return 4
-		}
-		return 3
-	}
-	return 9
-}
-
-var errNames = map[int]string{1: "already-initialized", 2: "invalid-hash-algo", 3: "no-such-pcr", 4: "no-such-bank", 5: "bank-length", 9: "other"}
-
-func outcomeName(class, ek int) string {
+// outcomeName: how a command ended, for the input distribution: the class of what the implementation
+// returned and, for a refused command, the reference TPM's reason.
+func outcomeName(class, why int) string {
 	switch class {
 	case 0:
 		return "ok"
 	case 2:
 		return "panic"
 	}
-	return "err:" + errNames[ek]
+	return "refused:" + whyNames[why]
 }
 
 // classes of the generated arguments, for the input distribution of the evidence
@@ -791,12 +826,15 @@ func fullSteps(c *gal.Ctx, n int, segEnd map[int]bool) []bool {
 func (o *objRun) step(i int) string {
 	t, ref, cm := o.t, o.ref, o.hist[i]
 	class, pmsg := runCmd(t, cm)
-	ek := 0
-	if class == 1 {
-		ek = errKind(pmsg)
-	}
-	countCmd(o.dist, cm, class, ek, ref.started)
+	startedBefore := ref.started
 	refOK := ref.exec(cm)
+	// the reason is the reference TPM's (from its state and the arguments); the implementation only
+	// contributes error / no error
+	ek := 0
+	if !refOK {
+		ek = ref.lastKind
+	}
+	countCmd(o.dist, cm, class, ek, startedBefore)
 	if refOK && cm.kind == kExtend {
 		o.okExtends++
 	}
